@@ -253,7 +253,16 @@ fn powf_marker(a: f32, b: f32) -> f32 {
         POW_BASE = a;
         POW_EXP = b;
     }
-    if b <= -1.0 { 0.25 } else { 0.75 }
+    // the two limits of e^b that the gain formula can hit are modelled exactly: e^-inf = 0, e^+inf = inf
+    if b == f32::NEG_INFINITY {
+        0.0
+    } else if b == f32::INFINITY {
+        f32::INFINITY
+    } else if b <= -1.0 {
+        0.25
+    } else {
+        0.75
+    }
 }
 
 pub mod gains {
@@ -276,6 +285,14 @@ pub mod gains {
         let det0: Detector<f32, Peak<FullWave>> = Detector::peak(0.0, 0.0);
         let (a0, r0, _) = det0.verif_state();
         assert!(a0 == 0.0 && r0 == 0.0, "zero frames: gain exactly 0");
+        // -0.0 is a time of zero frames too (-0.0 == 0.0, -0.0 >= 0.0)
+        let mut detn: Detector<f32, Peak<FullWave>> = Detector::peak(-0.0, -0.0);
+        let (an, rn, _) = detn.verif_state();
+        assert!(an == 0.0 && rn == 0.0, "zero frames written as -0.0: gain exactly 0");
+        detn.set_attack_frames(4.0);
+        detn.set_attack_frames(-0.0);
+        detn.set_release_frames(-0.0);
+        assert!(detn.verif_state().0 == 0.0 && detn.verif_state().1 == 0.0);
         // setters
         let l: f32 = kani::any();
         kani::assume(l >= 0.0 && l <= 1.0);
